@@ -508,3 +508,137 @@ impl<K: Eq + Hash> DashSet<K> {
         self.inner.peek_len()
     }
 }
+
+// ---- entry API (shard write lock held for the life of the entry) ----
+pub mod mapref {
+    pub mod entry {
+        pub use crate::{Entry, OccupiedEntry, VacantEntry};
+    }
+    pub mod one {
+        pub use crate::{Ref, RefMut};
+    }
+    pub mod multiple {
+        pub use crate::RefMulti;
+    }
+}
+
+pub enum Entry<'a, K, V> {
+    Occupied(OccupiedEntry<'a, K, V>),
+    Vacant(VacantEntry<'a, K, V>),
+}
+
+pub struct OccupiedEntry<'a, K, V> {
+    shard: &'a Shard<K, V>,
+    key: K,
+    released: bool,
+}
+
+pub struct VacantEntry<'a, K, V> {
+    shard: &'a Shard<K, V>,
+    key: Option<K>,
+    released: bool,
+}
+
+impl<K: Eq + Hash, V> DashMap<K, V> {
+    pub fn entry(&self, key: K) -> Entry<'_, K, V> {
+        sim::point("dashmap.entry");
+        let s = self.shard_of(&key);
+        s.lock_write();
+        if s.m().contains_key(&key) {
+            Entry::Occupied(OccupiedEntry {
+                shard: s,
+                key,
+                released: false,
+            })
+        } else {
+            Entry::Vacant(VacantEntry {
+                shard: s,
+                key: Some(key),
+                released: false,
+            })
+        }
+    }
+}
+
+impl<'a, K: Eq + Hash, V> Entry<'a, K, V> {
+    pub fn or_insert_with(self, f: impl FnOnce() -> V) -> RefMut<'a, K, V> {
+        match self {
+            Entry::Occupied(e) => e.into_ref(),
+            Entry::Vacant(e) => e.insert(f()),
+        }
+    }
+    pub fn or_insert(self, v: V) -> RefMut<'a, K, V> {
+        self.or_insert_with(|| v)
+    }
+    pub fn or_default(self) -> RefMut<'a, K, V>
+    where
+        V: Default,
+    {
+        self.or_insert_with(V::default)
+    }
+}
+
+impl<'a, K: Eq + Hash, V> OccupiedEntry<'a, K, V> {
+    pub fn get(&self) -> &V {
+        self.shard.m().get(&self.key).expect("occupied")
+    }
+    pub fn key(&self) -> &K {
+        &self.key
+    }
+    pub fn into_ref(mut self) -> RefMut<'a, K, V> {
+        self.released = true;
+        let k = self.shard.m().get_key_value(&self.key).map(|(k, _)| std::ptr::from_ref(k)).expect("occupied");
+        let v = std::ptr::from_mut(self.shard.m().get_mut(&self.key).expect("occupied"));
+        RefMut {
+            shard: self.shard,
+            k,
+            v,
+        }
+    }
+    pub fn remove(mut self) -> V {
+        let v = self.shard.m().remove(&self.key).expect("occupied");
+        self.released = true;
+        self.shard.unlock_write();
+        v
+    }
+}
+
+impl<K, V> Drop for OccupiedEntry<'_, K, V> {
+    fn drop(&mut self) {
+        if !self.released {
+            self.shard.unlock_write();
+        }
+    }
+}
+
+impl<'a, K: Eq + Hash, V> VacantEntry<'a, K, V> {
+    pub fn insert(mut self, value: V) -> RefMut<'a, K, V> {
+        self.released = true;
+        let key = self.key.take().expect("key");
+        let occ = match self.shard.m().entry(key) {
+            std::collections::hash_map::Entry::Vacant(v) => v.insert_entry(value),
+            std::collections::hash_map::Entry::Occupied(mut o) => {
+                _ = o.insert(value);
+                o
+            }
+        };
+        let k = std::ptr::from_ref(occ.key());
+        let v = std::ptr::from_mut(occ.into_mut());
+        RefMut {
+            shard: self.shard,
+            k,
+            v,
+        }
+    }
+    pub fn key(&self) -> &K {
+        self.key.as_ref().expect("key")
+    }
+}
+
+impl<K, V> Drop for VacantEntry<'_, K, V> {
+    fn drop(&mut self) {
+        if !self.released {
+            self.shard.unlock_write();
+        }
+    }
+}
